@@ -7,6 +7,10 @@ import (
 	"io"
 	"net"
 	"net/http"
+	"os"
+	"os/exec"
+	"strings"
+	"syscall"
 	"time"
 )
 
@@ -60,4 +64,56 @@ func compactAuth(a string) string {
 		out = append(out, a[i])
 	}
 	return string(out)
+}
+
+// StartCred is Start with the gateway child running under the given effective uid / gid (the
+// harness runs as root): C17 checks --chuid/--chgid ownership against a gateway whose effective
+// gid differs from its effective uid.  The work directory must be accessible to that identity.
+// (Restart on such a gateway falls back to the harness's own identity: not used.)
+func StartCred(cfg Config, uid, gid uint32) (*Gateway, error) {
+	var g *Gateway
+	var err error
+	for try := 0; try < 6; try++ {
+		g = &Gateway{Cfg: cfg, Port: FreePort(), AdminPort: FreePort(), Log: &bytes.Buffer{}}
+		err = g.launchCred(uid, gid)
+		if err == nil || !strings.Contains(err.Error(), "address already in use") {
+			return g, err
+		}
+	}
+	return g, err
+}
+
+func (g *Gateway) launchCred(uid, gid uint32) error {
+	cmd := exec.Command(g.Cfg.Bin, g.Cfg.args(g.Port, g.AdminPort)...)
+	cmd.Env = append(os.Environ(), g.Cfg.Env...)
+	cmd.Stdout = envTee{g.Log}
+	cmd.Stderr = envTee{g.Log}
+	cmd.Dir = g.Cfg.Work
+	cmd.SysProcAttr = &syscall.SysProcAttr{Setpgid: true, Pdeathsig: syscall.SIGKILL,
+		Credential: &syscall.Credential{Uid: uid, Gid: gid, NoSetGroups: false, Groups: []uint32{gid}}}
+	if err := cmd.Start(); err != nil {
+		return err
+	}
+	g.cmd = cmd
+	g.exited = make(chan struct{})
+	go func(c *exec.Cmd, ch chan struct{}) {
+		g.ExitErr = c.Wait()
+		close(ch)
+	}(cmd, g.exited)
+	deadline := time.Now().Add(15 * time.Second)
+	for time.Now().Before(deadline) {
+		select {
+		case <-g.exited:
+			return fmt.Errorf("gateway exited at start: %v\n%s", g.ExitErr, g.Log.String())
+		default:
+		}
+		c, err := net.DialTimeout("tcp", g.Addr(), 200*time.Millisecond)
+		if err == nil {
+			c.Close()
+			return nil
+		}
+		time.Sleep(20 * time.Millisecond)
+	}
+	g.Kill()
+	return fmt.Errorf("gateway did not come up\n%s", g.Log.String())
 }
